@@ -210,3 +210,41 @@ func (t *Tables) Header(extra map[string]interface{}) map[string]interface{} {
 	}
 	return h
 }
+
+// Decode is the inverse of Encode for documents written by TLC (ToJson of the
+// internal form: arrays are lists, an empty map may be rendered as an empty list).
+func Decode(x interface{}) interface{} {
+	m, ok := x.(map[string]interface{})
+	if !ok {
+		return nil
+	}
+	a, _ := m["a"].(string)
+	switch m["k"] {
+	case "s", "v":
+		return a
+	case "n":
+		f, _ := strconv.ParseFloat(a, 64)
+		return f
+	case "b":
+		return a == "true"
+	case "z":
+		return nil
+	case "m":
+		out := map[string]interface{}{}
+		if mm, ok := m["m"].(map[string]interface{}); ok {
+			for k, v := range mm {
+				out[k] = Decode(v)
+			}
+		}
+		return out
+	case "l":
+		out := []interface{}{}
+		if l, ok := m["l"].([]interface{}); ok {
+			for _, v := range l {
+				out = append(out, Decode(v))
+			}
+		}
+		return out
+	}
+	return nil
+}
